@@ -806,52 +806,154 @@ theorem batched_prof_core [DecidableEq α] (prof : List (Option α) → Prof α)
     simp only [Option.map_some, hfold]
     exact hb
 
-/-- **Listed counts of a sum are exact** (`_partial`: what survives of the most-frequent clause): every value the
-sum of two numeric batch profiles lists carries its exact number of occurrences in the concatenation. -/
-theorem sum_mfv_counts_exact_partial [DecidableEq α] (p : Ops α) (xs ys : List (Option α)) (v : α) (c : Nat)
-    (hl : (v, c) ∈ (addProf (profileNumeric p xs) (profileNumeric p ys)).mfv) :
-    c = (present (xs ++ ys)).count v := by
-  have hx : ∀ w d, (w, d) ∈ (profileNumeric p xs).mfv → d = (present xs).count w := by
+/-- **The `elif` chain of `__add__`'s most-frequent merge as it stands in the source** (generated from the branches under
+`if self.most_frequent_values and profile.most_frequent_values:`): when not both sides list values the sum keeps the
+left side's list if the other side holds no value, takes the other side's list if the left side holds no value, and
+lists nothing when both hold values — whether or not one of them lists something.  (A side can hold values and
+list none: the sum of two batches that share no listed value.) -/
+theorem sum_mfv_one_sided_expressions (mineEmpty theirsEmpty mineLists theirsLists : Bool) :
+    Gen.ProfileExpr.addMfvOneSided mineEmpty theirsEmpty mineLists theirsLists
+      = (if theirsEmpty = true then MfvPick.mine else if mineEmpty = true then MfvPick.theirs else MfvPick.nothing) := by
+  cases mineEmpty <;> cases theirsEmpty <;> cases mineLists <;> cases theirsLists <;> rfl
+
+/-- `addMfv` with the generated chain spelled out. -/
+theorem addMfv_cases [DecidableEq α] (a b : Prof α) :
+    addMfv a b =
+      if (!a.mfv.isEmpty && !b.mfv.isEmpty) = true then
+        a.mfv.filterMap (fun vc => (b.mfv.find? (fun q => q.1 = vc.1)).map (fun q => (vc.1, vc.2 + q.2)))
+      else if b.core.count = b.core.missing then a.mfv
+      else if a.core.count = a.core.missing then b.mfv
+      else [] := by
+  unfold addMfv addMfvWith
+  rw [sum_mfv_one_sided_expressions]
+  by_cases h1 : (!a.mfv.isEmpty && !b.mfv.isEmpty) = true
+  · simp only [h1, if_true]
+  · by_cases hb : b.core.count = b.core.missing
+    · simp [h1, hb]
+    · by_cases ha : a.core.count = a.core.missing
+      · simp [h1, hb, ha]
+      · simp [h1, hb, ha]
+
+/-- A profile that counts the rows and nulls of `xs` and whose listed counts are exact occurrence counts in `xs`
+(it may list few values, or none). -/
+def ListsExact [DecidableEq α] (q : Prof α) (xs : List (Option α)) : Prop :=
+  q.core.count = xs.length ∧ q.core.missing = xs.countP (fun x => x.isNone) ∧
+  ∀ w d, (w, d) ∈ q.mfv → d = (present xs).count w
+
+/-- **Adding keeps listed counts exact** (the inductive step for any number of batches in any grouping): if each of two
+profiles counts its rows and nulls and lists only exact counts, so does their sum for the concatenation. -/
+theorem sum_keeps_listed_counts_exact [DecidableEq α] (a b : Prof α) (xs ys : List (Option α))
+    (ha : ListsExact a xs) (hb : ListsExact b ys) : ListsExact (addProf a b) (xs ++ ys) := by
+  obtain ⟨ha1, ha2, ha3⟩ := ha
+  obtain ⟨hb1, hb2, hb3⟩ := hb
+  have hnx : a.core.count = a.core.missing → present xs = [] := by
+    intro h
+    have h3 := length_present_add_nulls xs
+    exact List.eq_nil_of_length_eq_zero (by omega)
+  have hny : b.core.count = b.core.missing → present ys = [] := by
+    intro h
+    have h3 := length_present_add_nulls ys
+    exact List.eq_nil_of_length_eq_zero (by omega)
+  have hsl : Gen.ProfileExpr.addUpdatesStraightLine = true := rfl
+  refine ⟨?_, ?_, ?_⟩
+  · simp only [addProf, addCore, hsl, if_true, Gen.ProfileExpr.addCount, List.length_append]; omega
+  · simp only [addProf, addCore, hsl, if_true, Gen.ProfileExpr.addMissing, List.countP_append]; omega
+  · intro v c hl
+    rw [present_append, List.count_append]
+    have hl' : (v, c) ∈ addMfv a b := hl
+    rw [addMfv_cases] at hl'
+    split at hl'
+    · rw [List.mem_filterMap] at hl'
+      obtain ⟨⟨w, d⟩, hw, hq⟩ := hl'
+      cases hf : b.mfv.find? (fun q => q.1 = w) with
+      | none => simp [hf] at hq
+      | some q =>
+        simp only [hf, Option.map_some, Option.some.injEq, Prod.mk.injEq] at hq
+        have hqm := List.mem_of_find?_eq_some hf
+        have hqk : q.1 = w := by simpa using List.find?_some hf
+        obtain ⟨e1, e2⟩ := hq
+        subst e1
+        rw [← e2, ha3 _ _ hw, hb3 q.1 q.2 hqm, hqk]
+    · split at hl'
+      · rename_i hbe
+        rw [hny hbe]; simp [ha3 v c hl']
+      · split at hl'
+        · rename_i hae
+          rw [hnx hae]; simp [hb3 v c hl']
+        · simp at hl'
+
+/-- The numeric and the text profiler list exact counts (of the values as profiled: text through its window). -/
+theorem profilers_lists_exact [DecidableEq α] (p : Ops α) (cut : α → α) (xs : List (Option α)) :
+    ListsExact (profileNumeric p xs) xs ∧ ListsExact (profileText p cut xs) (xs.map (Option.map cut)) := by
+  constructor
+  · refine ⟨(count_eq_length p id xs []).1, (missing_eq_nulls p id xs []).1, ?_⟩
     intro w d hm
     by_cases hp : present xs = []
     · simp [profileNumeric, orderAndTransitions, hp] at hm
     · rw [((profilers_wiring p id xs).2.2.2 hp).1] at hm
       exact ((mfv_counts_exact (present xs)).1 w d hm).2
-  have hy : ∀ w d, (w, d) ∈ (profileNumeric p ys).mfv → d = (present ys).count w := by
+  · have e4 : (xs.map (Option.map cut)).countP (fun x => x.isNone) = xs.countP (fun x => x.isNone) := by
+      rw [List.countP_map]; congr 1; funext x; cases x <;> rfl
+    refine ⟨by rw [(count_eq_length p cut xs []).2.2.1, List.length_map],
+            by rw [(missing_eq_nulls p cut xs []).2.2.1, e4], ?_⟩
     intro w d hm
-    by_cases hp : present ys = []
-    · simp [profileNumeric, orderAndTransitions, hp] at hm
-    · rw [((profilers_wiring p id ys).2.2.2 hp).1] at hm
-      exact ((mfv_counts_exact (present ys)).1 w d hm).2
-  have hnone : ∀ zs : List (Option α), (profileNumeric p zs).core.count = (profileNumeric p zs).core.missing →
-      present zs = [] := by
-    intro zs h
-    have h1 := (count_eq_length p id zs []).1
-    have h2 := (missing_eq_nulls p id zs []).1
-    have h3 := length_present_add_nulls zs
-    rw [h1, h2] at h
-    exact List.eq_nil_of_length_eq_zero (by omega)
-  rw [present_append, List.count_append]
-  simp only [addProf, addMfv] at hl
-  split at hl
-  · rw [List.mem_filterMap] at hl
-    obtain ⟨⟨w, d⟩, hw, hq⟩ := hl
-    cases hf : (profileNumeric p ys).mfv.find? (fun q => q.1 = w) with
-    | none => simp [hf] at hq
-    | some q =>
-      simp only [hf, Option.map_some, Option.some.injEq, Prod.mk.injEq] at hq
-      have hqm := List.mem_of_find?_eq_some hf
-      have hqk : q.1 = w := by simpa using List.find?_some hf
-      obtain ⟨e1, e2⟩ := hq
-      subst e1
-      rw [← e2, hx _ _ hw, hy q.1 q.2 hqm, hqk]
-  · split at hl
-    · rename_i hb
-      rw [hnone ys hb]; simp [hx v c hl]
-    · split at hl
-      · rename_i ha
-        rw [hnone xs ha]; simp [hy v c hl]
-      · simp at hl
+    have hpm : ∀ zs : List (Option α), present (zs.map (Option.map cut)) = (present zs).map cut := by
+      intro zs
+      induction zs with
+      | nil => rfl
+      | cons x zs ih => cases x <;> simp_all [present]
+    rw [hpm]
+    by_cases hp : present xs = []
+    · simp [profileText, orderAndTransitions, hp] at hm
+    · rw [((profilers_wiring p cut xs).2.2.2 hp).2.2.2.2.2.1] at hm
+      exact ((mfv_counts_exact ((present xs).map cut)).1 w d hm).2
+
+/-- **Listed counts of a sum are exact** (`_partial`: what survives of the most-frequent clause): every value the
+sum of two numeric batch profiles lists carries its exact number of occurrences in the concatenation. -/
+theorem sum_mfv_counts_exact_partial [DecidableEq α] (p : Ops α) (xs ys : List (Option α)) (v : α) (c : Nat)
+    (hl : (v, c) ∈ (addProf (profileNumeric p xs) (profileNumeric p ys)).mfv) :
+    c = (present (xs ++ ys)).count v :=
+  (sum_keeps_listed_counts_exact _ _ xs ys (profilers_lists_exact p id xs).1 (profilers_lists_exact p id ys).1).2.2 v c hl
+
+/-- **…for any number of batches, in either grouping, and for `from_dataframe`'s fold over any number of morsels**: the
+sum `(a + b) + c`, the sum `a + (b + c)` and the left fold over a list of morsels all count the rows and nulls of the
+concatenation and list only exact occurrence counts — for every profiler that does so on a single batch (the numeric
+and the text profiler: `profilers_lists_exact`).  In particular a sum that holds values and lists none (two batches
+without a listed value in common) never adopts a later batch's list with that batch's counts. -/
+theorem sum_tree_listed_counts_exact [DecidableEq α] (prof : List (Option α) → Prof α)
+    (hp : ∀ zs, ListsExact (prof zs) zs) (a b c : List (Option α)) (ms : List (List (Option α))) :
+    ListsExact (addProf (addProf (prof a) (prof b)) (prof c)) (a ++ b ++ c) ∧
+    ListsExact (addProf (prof a) (addProf (prof b) (prof c))) (a ++ (b ++ c)) ∧
+    ListsExact (ms.foldl (fun acc m => addProf acc (prof m)) (prof a)) (a ++ ms.flatten) := by
+  refine ⟨?_, ?_, ?_⟩
+  · exact sum_keeps_listed_counts_exact _ _ _ _ (sum_keeps_listed_counts_exact _ _ _ _ (hp a) (hp b)) (hp c)
+  · exact sum_keeps_listed_counts_exact _ _ _ _ (hp a) (sum_keeps_listed_counts_exact _ _ _ _ (hp b) (hp c))
+  · have gen : ∀ (ms : List (List (Option α))) (q : Prof α) (zs : List (Option α)), ListsExact q zs →
+        ListsExact (ms.foldl (fun acc m => addProf acc (prof m)) q) (zs ++ ms.flatten) := by
+      intro ms
+      induction ms with
+      | nil => intro q zs h; simpa using h
+      | cons m ms ih =>
+        intro q zs h
+        have := ih (addProf q (prof m)) (zs ++ m) (sum_keeps_listed_counts_exact _ _ _ _ h (hp m))
+        simpa [List.flatten_cons, List.append_assoc] using this
+    exact gen ms (prof a) a (hp a)
+
+/-- **Counterexample: "keep whichever list there is"** (the chain collapsed to: the other side's list when it has one,
+else ours): batches `[1,1]`, `[2,2]`, `[1]` — the first two share no value, their sum holds four values and lists none;
+adding the third batch then lists `1` once, although `1` occurs three times.  With the chain of the source the sum
+lists nothing. -/
+theorem one_sided_adoption_undercounts :
+    let ops : Ops Int := { le := intLe, lt := intLt, key := id, hash := fun _ => 1 }
+    let pa := profileNumeric ops [some 1, some 1]
+    let pb := profileNumeric ops [some 2, some 2]
+    let pc := profileNumeric ops [some 1]
+    let keepAny : Bool → Bool → Bool → Bool → MfvPick := fun _ _ _ tl => if tl then .theirs else .mine
+    let ab : Prof Int := { addProf pa pb with mfv := addMfvWith keepAny pa pb }
+    ab.mfv = [] ∧ ab.core.count = 4 ∧ ab.core.missing = 0 ∧
+    addMfvWith keepAny ab pc = [(1, 1)] ∧
+    (addProf (addProf pa pb) pc).mfv = [] := by
+  decide
 
 /-- **…but the most frequent value can be missing from a sum** (counterexample; finding K06): batches `[1,1,1,2]`
 and `[2]` — the sum lists only `2` (twice), the column's most frequent value `1` (three times) is not listed. -/
@@ -1313,5 +1415,94 @@ theorem aliased_load_changes_operand :
     let r2 := addHist false true true (· ++ ·) List.length r1.2 0 1
     r1.2.get r1.1 = [(0, 1), (5, 1)] ∧ r1.2.get 0 = [(0, 1), (5, 1)] ∧ h.get 0 = [(0, 1)] ∧
     r2.2.get r2.1 = [(0, 1), (5, 1), (5, 1)] := by decide
+
+/-! ## The profiled window of a text value: characters, not bytes -/
+
+/-- **The window of `VarcharProfiler` as it stands in the source** (generated: the unit of the cut — `col[:W]` slices
+characters — and its width): the profiled part of a value is its first `textCutWidth` *characters*, whatever their
+UTF-8 length.  So a value of at most that many characters is profiled whole, and two values that differ within their
+first `textCutWidth` characters stay two values for the most-frequent list, the order and the transitions. -/
+theorem text_window_expressions (s t : String) :
+    Gen.ProfileExpr.textCutOnBytes = false ∧
+    (cutText s).toList = s.toList.take Gen.ProfileExpr.textCutWidth ∧
+    (s.toList.length ≤ Gen.ProfileExpr.textCutWidth → cutText s = s) ∧
+    (s.toList.take Gen.ProfileExpr.textCutWidth ≠ t.toList.take Gen.ProfileExpr.textCutWidth → cutText s ≠ cutText t) := by
+  have hu : Gen.ProfileExpr.textCutOnBytes = false := rfl
+  have hc : ∀ u : String, (cutText u).toList = u.toList.take Gen.ProfileExpr.textCutWidth := by
+    intro u
+    simp [cutText, cutTextWith, hu]
+  refine ⟨hu, hc s, ?_, ?_⟩
+  · intro hl
+    apply String.toList_injective
+    rw [hc s, List.take_of_length_le hl]
+  · intro hne heq
+    exact hne (by rw [← hc s, ← hc t, heq])
+
+/-- **Counterexample: a window of bytes folds different values** (`encode()[:W].decode(errors="ignore")` in place of
+`[:W]`): with a window of 4, the three-letter Greek words `αβγ` and `αβδ` (6 bytes each) are both cut to `αβ`, although
+they have no more than 4 characters and differ within them; the window of characters keeps them apart. -/
+theorem byte_window_folds_values :
+    takeBytes 4 ['α', 'β', 'γ'] = ['α', 'β'] ∧ takeBytes 4 ['α', 'β', 'δ'] = ['α', 'β'] ∧
+    ['α', 'β', 'γ'].take 4 ≠ ['α', 'β', 'δ'].take 4 ∧ ['α', 'β', 'γ'].length ≤ 4 := by
+  decide
+
+/-! ## `column_names` through `single_item_cache`: every frame is answered with its own names -/
+
+/-- **A single-item cache is transparent when equal arguments have equal results**: for any set `S` of arguments on which
+`eq a b = true` implies `f a = f b`, every sequence of calls with arguments from `S`, from any entry that is itself a
+computed result, is answered as if the function were called each time. -/
+theorem single_item_cache_transparent {σ τ : Type} (eq : σ → σ → Bool) (f : σ → τ) (S : σ → Prop)
+    (h : ∀ a b, S a → S b → eq a b = true → f a = f b) :
+    ∀ (as : List σ) (e : Option (σ × τ)), (∀ a ∈ as, S a) → (∀ p, e = some p → S p.1 ∧ p.2 = f p.1) →
+      cachedCalls eq f e as = as.map f := by
+  intro as
+  induction as with
+  | nil => intro e _ _; rfl
+  | cons a as ih =>
+    intro e hS he
+    have hSa : S a := hS a List.mem_cons_self
+    have hrest : ∀ b ∈ as, S b := fun b hb => hS b (List.mem_cons_of_mem _ hb)
+    cases e with
+    | none =>
+      simp only [cachedCalls, cachedCall, List.map_cons]
+      rw [ih _ hrest (by intro p hp; cases hp; exact ⟨hSa, rfl⟩)]
+    | some p =>
+      obtain ⟨a0, r0⟩ := p
+      obtain ⟨hS0, hr0⟩ := he (a0, r0) rfl
+      by_cases hq : eq a0 a = true
+      · simp only [cachedCalls, cachedCall, hq, if_true, List.map_cons]
+        rw [ih _ hrest (by intro p hp; cases hp; exact ⟨hS0, hr0⟩)]
+        have : r0 = f a := Eq.trans hr0 (h a0 a hS0 hSa hq)
+        rw [this]
+      · simp only [cachedCalls, cachedCall, hq, List.map_cons]
+        rw [ih _ hrest (by intro p hp; cases hp; exact ⟨hSa, rfl⟩)]
+        rfl
+
+/-- **`DataFrame.column_names` answers every frame with its own names** — with the cache and the equality of frames as
+they stand in the source (generated: `column_names` is wrapped in `single_item_cache`; the class defines no `__eq__`,
+so two frames are equal only when they are one object): for any sequence of frame objects, holding whatever rows (equal
+rows included), in which one object has one list of names. -/
+theorem column_names_of_own_frame {ρ ν : Type} [DecidableEq ρ] (fs : List (FrameObj ρ ν))
+    (hobj : ∀ x ∈ fs, ∀ y ∈ fs, x.obj = y.obj → x.names = y.names) :
+    columnNamesAnswers Gen.ProfileGlue.columnNamesCached Gen.ProfileGlue.frameEqIsIdentity fs = fs.map (·.names) := by
+  have hid : Gen.ProfileGlue.frameEqIsIdentity = true := rfl
+  unfold columnNamesAnswers
+  split
+  · refine single_item_cache_transparent _ _ (· ∈ fs) ?_ fs none (fun a ha => ha) (by intro p hp; cases hp)
+    intro a b ha hb hq
+    simp only [frameEq, hid, Bool.not_true, Bool.false_and, Bool.or_false, decide_eq_true_eq] at hq
+    exact hobj a ha b hb hq
+  · rfl
+
+/-- **Counterexample: frames that compare equal by their rows** (a `DataFrame.__eq__` in step with `__hash__`): two frame
+objects holding the same rows, their columns named `[0, 1]` and `[1, 0]` — the second is answered with the first one's
+names (and so every column of its profile is computed from the cells of the other column); by identity each gets its
+own. -/
+theorem rows_equality_serves_another_frames_names :
+    let a : FrameObj Nat Nat := ⟨1, [10, 20], [0, 1]⟩
+    let b : FrameObj Nat Nat := ⟨2, [10, 20], [1, 0]⟩
+    columnNamesAnswers true false [a, b, a] = [[0, 1], [0, 1], [0, 1]] ∧
+    columnNamesAnswers true true [a, b, a] = [[0, 1], [1, 0], [0, 1]] := by
+  decide
 
 end C15
